@@ -173,7 +173,25 @@ STEP_OPS = [
     ("set_hash", "vk_st_set_hash", (0, 2), (0, 1, 2, 3), {"OP_SET_QF": "F_HASH"}),
     ("set_pathname", "vk_st_set_pathname", (0, 2), (0, 1, 2, 3), {"OP_SET_PATHNAME": 1}),
     ("set_protocol", "vk_st_set_protocol", (2, 3), (0, 1, 2, 3, 4, 5), {"OP_SET_PROTOCOL": 1}),
+    # internal editors (the primitives every setter and the parser are built from), each under the precondition its
+    # callers establish (harness/step_pre.h) and with its own slot / frame / length postcondition (harness/step_ops.h)
+    ("ed_clear_hostname", "vk_st_clear_hostname", (0,), (0,), {"OP_EDIT": 1}),
+    ("ed_clear_password", "vk_st_clear_password", (0,), (0,), {"OP_EDIT": 2}),
+    ("ed_update_username", "vk_st_update_base_username", (0, 2), (0, 1, 2, 3), {"OP_EDIT": 3}),
+    ("ed_update_password", "vk_st_update_base_password", (0, 2), (0, 1, 2, 3), {"OP_EDIT": 4}),
+    # append_base_username / append_base_password (OP_EDIT 5, 6) are NOT registered: their only callers are in the parser's
+    # AUTHORITY state, on a half-built URL (host still empty, nothing behind it) that is outside INV; under the setters'
+    # precondition (non-empty host) the solver shows that they drop the '@' when the host is as long as the value -
+    # a state no caller can produce (DESIGN.md section 4, false alarms).
+    ("ed_update_hostname", "vk_st_update_base_hostname", (0, 2), (0, 1, 2, 3), {"OP_EDIT": 7, "INV_NO_HOST_TYPE": 1}),
+    ("ed_update_port", "vk_st_update_base_port", (0,), (0,), {"OP_EDIT": 8}),
+    ("ed_authority_without_guard", "vk_st_authority_without_guard", (0,), (0,), {"OP_EDIT": 9}),
+    ("ed_update_pathname", "vk_st_update_base_pathname", (0, 3), (0, 1, 2, 3, 4), {"OP_EDIT": 10}),
+    ("ed_append_pathname", "vk_st_append_base_pathname", (2,), (0, 1, 2, 3), {"OP_EDIT": 11}),
+    ("ed_update_hash", "vk_st_update_unencoded_base_hash", (0, 2), (0, 1, 2, 3), {"OP_EDIT": 12}),
+    ("ed_set_scheme", "vk_st_set_scheme", (2, 4), (1, 2, 3, 4, 5), {"OP_EDIT": 13}),
 ]
+EDITOR_OPS = tuple(x[0] for x in STEP_OPS if x[0].startswith("ed_"))
 # set_host / set_hostname (OP_SET_HOST, IDNA cut by the TO_ASCII stub) were built and measured: no verdict within 20 min
 # per query even for the empty value and with the shape case split -> not registered (DESIGN.md section 4).
 
@@ -185,7 +203,7 @@ def steps(tier, ops=None, with_limit=False, tag="", pick=None, cfg="default"):
         if ops and name not in ops:
             continue
         heavy = name in HEAVY_OPS
-        for n in lens(tier, (9,) if name != "update_search" else (8,), (6, 8, 10, 12) if not heavy else (8,)):
+        for n in lens(tier, (9,) if name != "update_search" else (8,), ((8, 10, 11) if name.startswith("ed_") else (6, 8, 10, 12)) if not heavy else (8,)):
             for m in lens(tier, qm, tm if not heavy else tuple(x for x in tm if x in (0, 2))):
                 if tier == Q and pick is not None and (name, m) not in pick:
                     continue
@@ -289,10 +307,10 @@ def inv_lemma(tier):
 
 
 # quick-tier selections (each is decided in < ~4 min; the heavier setters are thorough-tier)
-PICK_C07 = {("clear_port", 0), ("clear_search", 0), ("clear_hash", 0), ("clear_pathname", 0), ("update_search", 2), ("set_port", 2), ("set_username", 1)}
-PICK_C03 = {("set_username", 0), ("set_username", 1), ("set_password", 1), ("set_port", 0), ("set_port", 2), ("update_search", 2)}
+PICK_C07 = {("ed_update_hash", 2), ("ed_update_port", 0), ("ed_set_scheme", 2), ("clear_port", 0), ("clear_search", 0), ("clear_hash", 0), ("clear_pathname", 0), ("update_search", 2), ("set_port", 2), ("set_username", 1)}
+PICK_C03 = {("ed_update_username", 2), ("ed_update_password", 0), ("ed_update_pathname", 3), ("set_username", 0), ("set_username", 1), ("set_password", 1), ("set_port", 0), ("set_port", 2), ("update_search", 2)}
 PICK_C09 = {("set_username", 1), ("set_password", 1), ("set_port", 2)}
-PICK_C19 = {("set_port", 2), ("set_password", 1), ("clear_port", 0)}
+PICK_C19 = {("ed_update_hostname", 2), ("ed_authority_without_guard", 0), ("ed_clear_hostname", 0), ("ed_clear_password", 0), ("set_port", 2), ("set_password", 1), ("clear_port", 0)}
 
 
 def prop_C07(tier):
@@ -300,7 +318,7 @@ def prop_C07(tier):
 
 
 def prop_C03(tier):
-    return steps(tier, ops=("set_username", "set_password", "set_port", "set_search", "set_hash", "set_pathname", "set_protocol", "update_search"), pick=PICK_C03)
+    return steps(tier, ops=("set_username", "set_password", "set_port", "set_search", "set_hash", "set_pathname", "set_protocol", "update_search") + EDITOR_OPS, pick=PICK_C03)
 
 
 def prop_C09(tier):
@@ -545,6 +563,8 @@ DIFF_BASE_CASE = {"C04": 1 | 2 | 4 | 64, "C05": 16 | 32, "C17": 8}
 WPT_BASE_CASE = ("C01",)
 # native setter sweep (every corpus URL x 10 setters x ~200 values): the only coverage of the host setters / set_href / ada::url setters
 SETTER_BASE_CASE = ("C03", "C19")
+# url_search_params::sort beyond the 16-element bound of the solver obligation (libstdc++ switches algorithm there)
+SORT_BASE_CASE = ("C12",)
 # the same sweep under limits around the sizes involved (C09: setters under a limit)
 SETTER_LIMIT_BASE_CASE = ("C09",)
 
